@@ -37,7 +37,7 @@ Proof.
 Qed.
 
 Lemma absent_handle s r : Inv s -> ~ In r (abs s) -> check_handle s r = Err ValueError.
-Proof. intros II H. unfold check_handle. fold (hnd s r). rewrite (detached s r II H). reflexivity. Qed.
+Proof. intros II H. rewrite check_handle_hnd, (detached s r II H). reflexivity. Qed.
 
 Lemma last_indep {A} (l : list A) : forall d d', l <> [] -> last l d = last l d'.
 Proof.
@@ -77,20 +77,21 @@ Variable LF : Z.
 Hypothesis HLF : 1 <= LF.
 Variable s : store.
 Hypothesis II : Inv s.
+Hypothesis Pure : pure s.
 
 (* insert_after(t, ts) *)
 Lemma bridge_insert_after a t b ts : abs s = map Pid (a ++ t :: b) ->
   NoDup (map Pid ts) -> (forall x, In x ts -> ~ In (Pid x) (abs s)) ->
   let s' := fst (insert_after LF s (Some (Pid t)) (map Pid ts)) in
   insert_after LF s (Some (Pid t)) (map Pid ts) = (s', Ok tt) /\ Inv s' /\
-  abs s' = map Pid (a ++ t :: ts ++ b) /\ (forall u, txt s' u = txt s u).
+  abs s' = map Pid (a ++ t :: ts ++ b) /\ (forall u, txt s' u = txt s u) /\ pure s'.
 Proof.
   intros E ND Hf s'. destruct (insert_after LF s (Some (Pid t)) (map Pid ts)) as [s1 r1] eqn:H. cbn [fst] in s'. subst s'.
   rewrite map_app in E. cbn [map] in E.
-  destruct (insert_after_spec LF s (map Pid ts) (Some (Pid t)) (S (length (map Pid a))) s1 r1 HLF II) as (-> & I' & Ea & Ht); auto.
+  destruct (insert_after_spec LF s (map Pid ts) (Some (Pid t)) (S (length (map Pid a))) s1 r1 HLF II) as (-> & I' & Ea & Ht & Fr); auto.
   - split; [lia|]. rewrite E. replace (S (length (map Pid a)) - 1)%nat with (length (map Pid a)) by lia. apply nth_error_app_mid.
-  - intros u Hu. apply in_map_iff in Hu as (x & <- & Hx). apply Hf; assumption.
-  - split; [reflexivity|]. split; [exact I'|]. split; [|exact Ht].
+  - intros u Hu. apply in_map_iff in Hu as (x & <- & Hx). apply pure_free; auto.
+  - split; [reflexivity|]. split; [exact I'|]. split; [|split; [exact Ht|exact (frames_pure s s1 _ _ _ II I' (le_n _) Ea Fr Pure)]].
     rewrite Ea, E, ls_after. rewrite !map_app. cbn [map]. rewrite map_app. reflexivity.
 Qed.
 
@@ -99,14 +100,14 @@ Lemma bridge_insert_before a t b ts : abs s = map Pid (a ++ t :: b) ->
   NoDup (map Pid ts) -> (forall x, In x ts -> ~ In (Pid x) (abs s)) ->
   let s' := fst (insert_before LF s (Some (Pid t)) (map Pid ts)) in
   insert_before LF s (Some (Pid t)) (map Pid ts) = (s', Ok tt) /\ Inv s' /\
-  abs s' = map Pid (a ++ ts ++ t :: b) /\ (forall u, txt s' u = txt s u).
+  abs s' = map Pid (a ++ ts ++ t :: b) /\ (forall u, txt s' u = txt s u) /\ pure s'.
 Proof.
   intros E ND Hf s'. destruct (insert_before LF s (Some (Pid t)) (map Pid ts)) as [s1 r1] eqn:H. cbn [fst] in s'. subst s'.
   rewrite map_app in E. cbn [map] in E.
-  destruct (insert_before_spec LF s (map Pid ts) (Some (Pid t)) (length (map Pid a)) s1 r1 HLF II) as (-> & I' & Ea & Ht); auto.
+  destruct (insert_before_spec LF s (map Pid ts) (Some (Pid t)) (length (map Pid a)) s1 r1 HLF II) as (-> & I' & Ea & Ht & Fr); auto.
   - cbn. rewrite E. apply nth_error_app_mid.
-  - intros u Hu. apply in_map_iff in Hu as (x & <- & Hx). apply Hf; assumption.
-  - split; [reflexivity|]. split; [exact I'|]. split; [|exact Ht].
+  - intros u Hu. apply in_map_iff in Hu as (x & <- & Hx). apply pure_free; auto.
+  - split; [reflexivity|]. split; [exact I'|]. split; [|split; [exact Ht|exact (frames_pure s s1 _ _ _ II I' (le_n _) Ea Fr Pure)]].
     rewrite Ea, E, ls_before. rewrite !map_app. cbn [map]. reflexivity.
 Qed.
 
@@ -117,7 +118,7 @@ Lemma bridge_splice a m c ts f l : abs s = map Pid (a ++ m ++ c) ->
   NoDup (map Pid ts) -> (forall x, In x ts -> ~ In (Pid x) (abs s) \/ In (Pid x) (map Pid m)) ->
   let s' := fst (splice LF s (map Pid ts) (Some (Pid f)) (Some (Pid l))) in
   splice LF s (map Pid ts) (Some (Pid f)) (Some (Pid l)) = (s', Ok tt) /\ Inv s' /\
-  abs s' = map Pid (a ++ ts ++ c) /\ (forall u, txt s' u = txt s u).
+  abs s' = map Pid (a ++ ts ++ c) /\ (forall u, txt s' u = txt s u) /\ pure s'.
 Proof.
   intros E Hf0 Hl0 ND Hv s'. destruct (splice LF s (map Pid ts) (Some (Pid f)) (Some (Pid l))) as [s1 r1] eqn:H.
   cbn [fst] in s'. subst s'. rewrite !map_app in E.
@@ -125,14 +126,14 @@ Proof.
   set (X := map Pid a) in *. set (M := map Pid m) in *. set (Z0 := map Pid c) in *.
   assert (length M = length m) as LM by apply map_length.
   destruct (splice_spec LF s (map Pid ts) (Some (Pid f)) (Some (Pid l)) (length X) (length X + length M) s1 r1 HLF II)
-    as (-> & I' & Ea & Ht); auto.
+    as (-> & I' & Ea & Ht & Fr); auto.
   - cbn. rewrite E, nth_error_app2, Nat.sub_diag, nth_error_app1 by lia. unfold M. rewrite nth_error_map, Hf0. reflexivity.
   - cbn. split; [lia|]. rewrite E, nth_error_app2 by lia.
     replace (length X + length M - 1 - length X)%nat with (length m - 1)%nat by lia.
     rewrite nth_error_app1 by lia. unfold M. rewrite nth_error_map, Hl0. reflexivity.
   - split; [exact ND|]. intros u Hu. apply in_map_iff in Hu as (x & <- & Hx).
-    destruct (Hv x Hx) as [?|Hin]; [left; assumption|right]. rewrite E, range_mid. exact Hin.
-  - split; [reflexivity|]. split; [exact I'|]. split; [|exact Ht].
+    destruct (Hv x Hx) as [?|Hin]; [left; apply pure_free; assumption|right]. rewrite E, range_mid. exact Hin.
+  - split; [reflexivity|]. split; [exact I'|]. split; [|split; [exact Ht|apply (frames_pure s s1 (map Pid ts) (length X) (length X + length M) II I'); [lia|exact Ea|exact Fr|exact Pure]]].
     rewrite Ea, E, ls_range. unfold X, Z0. rewrite !map_app. reflexivity.
 Qed.
 
@@ -143,14 +144,14 @@ Lemma bridge_absent_ref r ts d0 : ~ In r (abs s) ->
   get_prev s r = Err ValueError /\ get_next s r = Err ValueError.
 Proof.
   intro H. pose proof (absent_handle s r II H) as E.
-  unfold insert_before, insert_after, splice, get_prev, get_next. rewrite E. auto.
+  unfold insert_before, insert_after, splice, get_prev, get_next. rewrite !E. auto.
 Qed.
 
 Lemma bridge_absent_end r e ts : In r (abs s) -> ~ In e (abs s) -> splice LF s ts (Some r) (Some e) = (s, Err ValueError).
 Proof.
   intros Hr He. pose proof (absent_handle s e II He) as E. unfold splice.
   destruct (check_handle s r) as [[hb hi]|e0] eqn:Er; [rewrite E; reflexivity|].
-  unfold check_handle in Er. destruct (t_handle (tget (s_toks s) r)); [discriminate|]. injection Er as <-. reflexivity.
+  rewrite check_handle_hnd in Er. destruct (hnd s r); [discriminate|]. injection Er as <-. reflexivity.
 Qed.
 
 (* an inserted token that already sits in the store makes both insertions refuse *)
@@ -162,7 +163,8 @@ Proof.
   assert (nth_error (abs s) (length (map Pid a)) = Some (Pid t)) as Hk by (rewrite E; apply nth_error_app_mid).
   assert (In (Pid x) (map Pid ts)) as Hxi by (apply in_map; exact Hx). split.
   - apply (insert_after_refuses LF s (map Pid ts) (Some (Pid t)) (S (length (map Pid a))) (Pid x) II); auto.
-    split; [lia|]. replace (S (length (map Pid a)) - 1)%nat with (length (map Pid a)) by lia. exact Hk.
+    + split; [lia|]. replace (S (length (map Pid a)) - 1)%nat with (length (map Pid a)) by lia. exact Hk.
+    + intro Hfr. destruct II as [I _]. exact (inv_free_not_in s (Pid x) I (free_hnd _ _ Hfr) Hin).
   - apply In_nth_error in Hin as [k Hkx].
     apply (splice_refuses LF s (map Pid ts) (Some (Pid t)) None (length (map Pid a)) (length (map Pid a)) (Pid x) k II); auto.
     + reflexivity.
